@@ -328,6 +328,13 @@ def make_config(spec: dict):
     """spec: dict(rmin, rmax, unit, rweight, resolution, edges, closed)"""
     import yaw
 
+    if spec.get("method"):
+        # generated binning: edges are computed by the library from (zmin, zmax, num_bins, method)
+        return yaw.Configuration.create(
+            rmin=spec["rmin"], rmax=spec["rmax"], unit=spec.get("unit", "deg"), rweight=spec.get("rweight"),
+            resolution=spec.get("resolution"), zmin=spec["edges"][0], zmax=spec["edges"][-1],
+            num_bins=len(spec["edges"]) - 1, method=spec["method"], closed=spec.get("closed", "right"),
+        )
     return yaw.Configuration.create(
         rmin=spec["rmin"],
         rmax=spec["rmax"],
